@@ -95,12 +95,18 @@ type Collision struct {
 
 // Scenario is a complete case.
 type Scenario struct {
-	S2S      bool      `json:"s2s"`
-	Received bool      `json:"received"`
-	Local    string    `json:"local,omitempty"`
-	WS       bool      `json:"ws,omitempty"` // a session negotiated with the WebSocket subprotocol (websocket.NewSession); c2s, initiated
-	Mode     string    `json:"mode"`         // bare | mux-reg | mux-unreg | serve-nil (Serve(nil): the programs are not used)
-	Input    []string  `json:"input"`        // raw top-level elements (and white space) sent by the peer
+	S2S      bool   `json:"s2s"`
+	Received bool   `json:"received"`
+	Local    string `json:"local,omitempty"`
+	WS       bool   `json:"ws,omitempty"` // a session negotiated with the WebSocket subprotocol (websocket.NewSession); c2s, initiated
+	Mode     string `json:"mode"`         // bare | mux-reg | mux-unreg | serve-nil (Serve(nil): the programs are not used)
+	// MuxVia (mux modes only): how the multiplexer is reached: "" (it is the
+	// handler given to Serve) | nested (an outer ServeMux delegates every element
+	// of the stream's namespace to it through mux.Handle) | getters (a handler
+	// that selects through the exported ServeMux.IQHandler / MessageHandler /
+	// PresenceHandler / Handler and calls what they return).
+	MuxVia   string    `json:"mux_via,omitempty"`
+	Input    []string  `json:"input"` // raw top-level elements (and white space) sent by the peer
 	Programs []Program `json:"programs"`
 	// AppSends: the application transmits elements of its own while the stream
 	// is served (synchronously at the start of the given invocation, when the
@@ -457,6 +463,9 @@ func gen(r *rand.Rand) Scenario {
 	}
 	if r.Intn(8) == 0 {
 		sc.WS, sc.S2S, sc.Received = true, false, false
+	}
+	if strings.HasPrefix(sc.Mode, "mux-") && r.Intn(3) == 0 {
+		sc.MuxVia = pick(r, "nested", "getters", "getters")
 	}
 	o := sess.Opts{S2S: sc.S2S, Received: sc.Received, Local: sc.Local}
 	local := o.Local
@@ -1085,6 +1094,16 @@ func build(c *core.Case, sc Scenario) (p *sess.Pair, st *runState, outer xmpp.Ha
 			return nil, nil, nil, false
 		}
 		inner = m
+		switch sc.MuxVia {
+		case "nested":
+			var outerMux *mux.ServeMux
+			if c.Guard("mux.New(outer)", func() { outerMux = mux.New(ns, mux.Handle(xml.Name{Space: ns}, m)) }) {
+				return nil, nil, nil, false
+			}
+			inner = outerMux
+		case "getters":
+			inner = gettersHandler(m, ns)
+		}
 	}
 	outer = xmpp.HandlerFunc(func(rw xmlstream.TokenReadEncoder, start *xml.StartElement) error {
 		if !st.byKey {
@@ -1113,6 +1132,66 @@ func build(c *core.Case, sc Scenario) (p *sess.Pair, st *runState, outer xmpp.Ha
 		outer = nil
 	}
 	return p, st, outer, true
+}
+
+// gettersHandler dispatches the way code does that selects handlers through
+// the multiplexer's exported getters (an outer multiplexer of another kind
+// delegating to a ServeMux, for example) instead of calling ServeMux.HandleXMPP.
+func gettersHandler(m *mux.ServeMux, ns string) xmpp.Handler {
+	return xmpp.HandlerFunc(func(t xmlstream.TokenReadEncoder, start *xml.StartElement) error {
+		if start.Name.Space != ns {
+			h, _ := m.Handler(start.Name)
+			return h.HandleXMPP(t, start)
+		}
+		switch start.Name.Local {
+		case "iq":
+			iq, err := stanza.NewIQ(*start)
+			if err != nil {
+				return err
+			}
+			inner := xmlstream.Inner(t)
+			var payload xml.StartElement
+			for {
+				tok, err := inner.Token()
+				if err != nil {
+					if err != io.EOF {
+						return err
+					}
+					break // no payload: the handlers registered for any payload
+				}
+				if cd, ok := tok.(xml.CharData); ok && strings.TrimSpace(string(cd)) == "" {
+					continue
+				}
+				se, ok := tok.(xml.StartElement)
+				if !ok {
+					return fmt.Errorf("c07: IQ payload is %T", tok)
+				}
+				payload = se.Copy()
+				break
+			}
+			h, _ := m.IQHandler(iq.Type, payload.Name)
+			return h.HandleIQ(iq, struct {
+				xml.TokenReader
+				xmlstream.Encoder
+			}{TokenReader: inner, Encoder: t}, &payload)
+		case "message":
+			msg, err := stanza.NewMessage(*start)
+			if err != nil {
+				return err
+			}
+			h, _ := m.MessageHandler(msg.Type, xml.Name{})
+			return h.HandleMessage(msg, t)
+		case "presence":
+			pr, err := stanza.NewPresence(*start)
+			if err != nil {
+				return err
+			}
+			h, _ := m.PresenceHandler(pr.Type, xml.Name{})
+			return h.HandlePresence(pr, t)
+		}
+		h, _ := m.Handler(start.Name)
+		return h.HandleXMPP(t, start)
+	})
 }
 
 // newWSPair negotiates a client session that uses the WebSocket subprotocol
@@ -1165,6 +1244,9 @@ func Run(c *core.Case, sc Scenario) {
 	}
 	c.Count("streams", 1)
 	c.Count("mode_"+sc.Mode, 1)
+	if sc.MuxVia != "" {
+		c.Count("mux_via_"+sc.MuxVia+"_"+sc.Mode, 1)
+	}
 	if sc.WS {
 		c.Count("session_websocket", 1)
 	}
@@ -1243,6 +1325,12 @@ func judge(c *core.Case, sc Scenario, o sess.Opts, st *runState, written []byte,
 		classes[i] = classify(n, ns)
 		if !classes[i].Constrained && !classes[i].NoReply {
 			anyUnconstrained = true
+		}
+	}
+	streamErrOnWire := false
+	for _, e := range wire.Elems {
+		if e.Name.Space == sess.NSStream && e.Name.Local == "error" {
+			streamErrOnWire = true
 		}
 	}
 	lastInvoked := -1
@@ -1362,7 +1450,7 @@ func judge(c *core.Case, sc Scenario, o sess.Opts, st *runState, written []byte,
 				hDup++
 			}
 		}
-		c.Sig("%s|s2s=%v|%s|pay=%v|w=%s|ret=%s|added=%d|err=%v", sc.Mode, sc.S2S, cl.Name, cl.HasPayload, kindSig(prog), prog.Ret, min(len(added), 2), serveErr != nil)
+		c.Sig("%s|s2s=%v|%s|pay=%v|w=%s|ret=%s|added=%d|err=%v", sc.Mode+sc.MuxVia, sc.S2S, cl.Name, cl.HasPayload, kindSig(prog), prog.Ret, min(len(added), 2), serveErr != nil)
 
 		switch {
 		case cl.Constrained:
@@ -1370,19 +1458,34 @@ func judge(c *core.Case, sc Scenario, o sess.Opts, st *runState, written []byte,
 			if st.brokenSendBefore(i) {
 				c.Count("request_after_unbalanced_app_send", 1)
 			}
-			if exempt {
-				c.Count("requests_exempt_stream_ended_with_error", 1)
-				continue
-			}
-			if ambig > 0 {
-				c.Count("requests_unjudged_ambiguous_write", 1)
-				continue
-			}
 			libReplies := 0
 			for _, e := range added {
 				if isReplyIQ(e, ns, cl.ID) {
 					libReplies++
 				}
+			}
+			if exempt {
+				// Serve ended with an error while handling this request.  The
+				// exception of the statement ("unless the stream itself is
+				// terminated with a stream error") is about what the peer sees: it
+				// applies when the stream error element is on the wire before the
+				// closing tag.
+				c.Count("requests_whose_handling_ended_serve_with_an_error", 1)
+				switch {
+				case streamErrOnWire:
+					c.Count("requests_exempt_stream_error_on_wire", 1)
+				case hReplies > 0 || libReplies > 0:
+					c.Count("requests_answered_before_serve_ended_with_an_error", 1)
+				case ambig > 0:
+					c.Count("requests_unjudged_ambiguous_write", 1)
+				default:
+					viol("reply:missing:"+modeKeyOf(sc)+":stream-error-not-on-wire", "%s id %q (mode %s, program %+v): Serve ended with %v while handling it; the peer got neither a reply nor a stream error: nothing but the closing tag follows\nwire: %s", cl.Name, cl.ID, sc.Mode, prog, serveErr, wireStr(wire))
+				}
+				continue
+			}
+			if ambig > 0 {
+				c.Count("requests_unjudged_ambiguous_write", 1)
+				continue
 			}
 			cause := func() string {
 				switch {
@@ -1487,6 +1590,9 @@ func judge(c *core.Case, sc Scenario, o sess.Opts, st *runState, written []byte,
 			}
 		case cl.NoReply:
 			c.Count("must_not_be_answered", 1)
+			if sc.MuxVia == "getters" && sc.Mode == "mux-unreg" && (cl.Name == "iq-result" || cl.Name == "iq-error") && len(added) == 0 {
+				c.Count("getters_unregistered_iq_reply_left_alone", 1)
+			}
 			if len(added) > 0 {
 				viol("autoreply:"+cl.Name, "%s (id %q, mode %s): the library added %d element(s) the handler did not write: %s", cl.Name, cl.ID, sc.Mode, len(added), added[0])
 			}
@@ -1668,11 +1774,19 @@ func witnesses() map[string]func(*core.Case) {
 	// (stanza.NewIQ lets the last one win, the session's default reply the first)
 	const qFromLast = `<iq xmlns:c='jabber:client' type='get' id='q1' from='juliet@example.org/balcony' c:from='mallory@example.org/x'><q xmlns='urn:c07:a'/></iq>`
 	nop := []Program{{Ret: "nil"}}
+	failing := []Program{{Ret: "err"}}
 	return map[string]func(*core.Case){
-		"reply:missing:bare:abandoned-element":    witness(Scenario{Mode: "bare", Input: []string{get}, Programs: abandon}),
-		"reply:missing:mux:abandoned-element":     witness(Scenario{Mode: "mux-reg", Input: []string{get}, Programs: abandon}),
-		"reply:missing:ws-bare:abandoned-element": witness(Scenario{WS: true, Mode: "bare", Input: []string{wsGet, wsClose}, Programs: append(append([]Program{}, abandon...), nop...)}),
-		"reply:missing:ws-mux:abandoned-element":  witness(Scenario{WS: true, Mode: "mux-reg", Input: []string{wsGet, wsClose}, Programs: append(append([]Program{}, abandon...), nop...)}),
+		// a handler error ends Serve: sendError encodes the stream error but
+		// never flushes it, the closing tag is written straight to the connection:
+		// the peer sees neither a reply nor a stream error
+		"reply:missing:bare:stream-error-not-on-wire":    witness(Scenario{Mode: "bare", Input: []string{get}, Programs: failing}),
+		"reply:missing:mux:stream-error-not-on-wire":     witness(Scenario{Mode: "mux-reg", Input: []string{get}, Programs: failing}),
+		"reply:missing:ws-bare:stream-error-not-on-wire": witness(Scenario{WS: true, Mode: "bare", Input: []string{wsGet, wsClose}, Programs: append(append([]Program{}, failing...), nop...)}),
+		"reply:missing:ws-mux:stream-error-not-on-wire":  witness(Scenario{WS: true, Mode: "mux-reg", Input: []string{wsGet, wsClose}, Programs: append(append([]Program{}, failing...), nop...)}),
+		"reply:missing:bare:abandoned-element":           witness(Scenario{Mode: "bare", Input: []string{get}, Programs: abandon}),
+		"reply:missing:mux:abandoned-element":            witness(Scenario{Mode: "mux-reg", Input: []string{get}, Programs: abandon}),
+		"reply:missing:ws-bare:abandoned-element":        witness(Scenario{WS: true, Mode: "bare", Input: []string{wsGet, wsClose}, Programs: append(append([]Program{}, abandon...), nop...)}),
+		"reply:missing:ws-mux:abandoned-element":         witness(Scenario{WS: true, Mode: "mux-reg", Input: []string{wsGet, wsClose}, Programs: append(append([]Program{}, abandon...), nop...)}),
 		// stanza.NewIQ takes c:type / c:id / c:from (c bound to the stanza's own
 		// namespace) for the stanza's type / id / from: the multiplexer's fallback
 		// answers a result, answers with the wrong id, answers the wrong entity
@@ -1708,7 +1822,7 @@ func Prop() *core.Prop {
 		Level: core.Exploration,
 		Rule:  "a case is one pre-loaded stream of 1-4 PRNG-built top-level elements (IQ of every type/id/from/to/payload shape, message, presence, others; client and server namespaces) served single-threaded by Session.Serve with one interpreted handler program per element (reads none/part/all; writes 0-3 marked elements out of 15 kinds through EncodeToken, xmlstream.Copy or Encode; returns nil, an error, a stream error, a stanza.Error plain or wrapped, io.EOF, or an error wrapping io.EOF / io.ErrUnexpectedEOF / io.ErrClosedPipe / its own error); one stream in 20 is served with Serve(nil); one session in 8 is negotiated with the WebSocket subprotocol through websocket.NewSession (frames, stanzas declare jabber:client, the peer ends with a close frame), directly, behind mux.ServeMux with the program registered for the payload, and behind it with nothing registered. The wire is re-parsed independently; unmarked top-level elements are the library's additions and are attributed to requests by id. One case in 200 is a concurrent id-collision scenario instead: Serve on its own goroutine, a requester goroutine with a pending SendIQ/SendIQElement/UnmarshalIQ/SendMessage/SendPresence of id X, the peer sends a get/set IQ with the same id X and a sentinel ping, waits for the ping's reply, then sends the real response and the closing tag; the usual reply rule is applied to the colliding request, which must also reach the handler, and the requester must get the response and not the request. Distinct = distinct (mode, s2s, stanza class, payload present, written kinds, read class, return, additions, outcome).",
 		Assumptions: []string{
-			"the exception 'unless the stream itself is terminated with a stream error' is read as: Serve returned a non-nil error while handling that element (DESIGN.md C07); the stream-error bytes themselves are only counted",
+			"the exception 'unless the stream itself is terminated with a stream error' applies to a request during whose handling Serve ended with an error only when the stream error element is on the wire before the closing tag; on this tree it never is (sendError does not flush it), which is the known finding reply:missing:<mode>:stream-error-not-on-wire",
 			"IQs without id or with an empty id, with a type outside get/set/result/error, or named iq in the other stanza namespace are unconstrained",
 			"an element the handler writes as {other stanza namespace}iq with the request's id and a reply type is ambiguous under the statement; such requests are not judged",
 			"handler invocations follow the input order (C08); a case where they do not is counted and not judged",
@@ -1723,9 +1837,10 @@ func Prop() *core.Prop {
 		Require: []string{
 			"mode_bare", "mode_mux-reg", "mode_mux-unreg",
 			"requests_with_id", "answered_by_handler", "answered_by_library", "answered_by_mux_fallback_or_session",
-			"must_not_be_answered", "requests_exempt_stream_ended_with_error", "reply_addressed_to_sender",
+			"must_not_be_answered", "requests_whose_handling_ended_serve_with_an_error", "requests_answered_before_serve_ended_with_an_error", "reply_addressed_to_sender",
 			"collision_cases", "collision_barrier_reached", "collision_own_request_on_wire", "collision_request_reached_handler", "collision_requester_got_response",
 			"collision_via_SendIQ", "collision_via_SendIQElement", "collision_via_UnmarshalIQ", "collision_via_SendMessage", "collision_via_SendPresence",
+			"mux_via_nested_mux-reg", "mux_via_nested_mux-unreg", "mux_via_getters_mux-reg", "mux_via_getters_mux-unreg", "getters_unregistered_iq_reply_left_alone",
 			"session_websocket", "ws_answered_by_library", "mode_serve-nil", "serve_nil_answered_by_library",
 			"handler_reply_with_xmlns_attr_first", "handler_reply_with_xmlns_attr_middle", "handler_reply_with_xmlns_attr_last", "handler_element_from_xml_decoder",
 			"app_sends", "app_send_unbalanced-eof", "app_send_reader-error", "app_send_balanced", "request_after_unbalanced_app_send",
